@@ -55,7 +55,8 @@ def eval_element_writer(ctx, rule: str, elem_cls: ClassInfo, shape: str, n_attrs
             attrs[Sym(f"ATTRNAME{i}", truthy=True, pytype=str, tags=("ATTRNAME",))] = Obj(
                 None, {"value": Sym(f"ATTRVAL{i}", pytype=str, tags=("ATTRVAL",))}, name=f"attr{i}")
         return Obj(elem_cls, {"tagName": Sym("TAG", truthy=True, pytype=str, tags=("TAG",)), "nodeName": Sym("TAG", truthy=True, pytype=str, tags=("TAG",)),
-                              "_attrs": attrs, "childNodes": children, "attributes": attrs}, name="element")
+                              "_attrs": attrs, "childNodes": children, "attributes": attrs,
+                              "firstChild": (children[0] if children else None), "lastChild": (children[-1] if children else None)}, name="element")
 
     def h_write_data(interp, a, k, n):
         events.append(("write_data", a[-1]))
